@@ -7,7 +7,7 @@ Line-protocol driver for C04. Requests (all ints after the op):
 * `calcs z c r hmax N {k {o z}*k}*N` → for each of the N bond lists: `h|-1` and the bitmask of
                                         `check_implicit(h')` for `h' = 0..hmax`, as `h:mask`
 * `implicify <wire>` / `explicify <wire>` → `ok <wire of the result> H <total hydrogens|-1>` | `lib:ValenceError` | `E:KeyError`
-* `mol <wire molecule>`              → `calc h..|chk (0,1,-1)..|cv ids..|fixcv ids..|q charge|rad 0/1|brutto sym n ..|mass pico`
+* `mol <wire molecule>`              → `calc h..|chk (0,1,-1)..|cv ids..|fixcv ids.. ; marks after fix_structure..|q charge|rad 0/1|brutto sym n ..|mass pico`
 -/
 open ChythonModel.Model ChythonModel.Model.Valence ChythonModel.Py ChythonModel.Gen
 
@@ -62,7 +62,7 @@ def handleMol (xs : List Int) : String :=
     let cv := showNats (checkValence m)
     let fixcv := match fixStructure m with
       | none => "E"
-      | some m' => showNats (checkValence m')
+      | some m' => showNats (checkValence m') ++ " ; " ++ " ".intercalate (m'.atoms.map fun (p : Nat × Atom) => showOptNat p.2.implH)
     let q := toString (molecularCharge m)
     let rad := if isRadical m then "1" else "0"
     let br := match brutto m with
